@@ -51,7 +51,12 @@ from enum import Enum
 from typing import Union
 
 from icalendar.caselessdict import CaselessDict
-from icalendar.parser import Parameters, escape_char, unescape_char
+from icalendar.parser import (
+    Parameters,
+    escape_char,
+    split_on_unescaped_comma,
+    unescape_char,
+)
 from icalendar.parser_tools import (
     DEFAULT_ENCODING,
     ICAL_TYPE,
@@ -445,8 +450,7 @@ class vCategory:
     @staticmethod
     def from_ical(ical):
         ical = to_unicode(ical)
-        out = unescape_char(ical).split(',')
-        return out
+        return [unescape_char(item) for item in split_on_unescaped_comma(ical)]
 
     def __eq__(self, other):
         """self == other"""
